@@ -1,5 +1,6 @@
 import LyModel.Merge.LemmasKeep2
 import LyModel.Merge.LemmasDestruct
+import LyModel.Merge.LemmasDupSibs
 /-!
 # C14 — merging and duplicating trees preserve content (property theorems)
 
@@ -236,5 +237,39 @@ example :
       (dupNode exS { recursive := true, noMeta := true } n).metas = [] ∧
       beqL (dupNode exS {} n).kids [.term 4 { new := true } [] [97]] = true := by
   decide
+
+/-- **dup_siblings_equal**: `lyd_dup_siblings` of a sibling list in canonical order is the list of the duplicates of its
+nodes, in the same order — for every option set, i.e. whichever insert order `lyd_dup` uses (`LYD_INSERT_NODE_DEFAULT`,
+`LAST_BY_SCHEMA` with `LYD_DUP_NO_LYDS`, `LAST` inside a run of instances of one (leaf-)list: the `first_llist` shortcut,
+including its reset-without-re-arm of finding F55, which costs the copy a complete sorting structure but never the order). -/
+theorem dup_siblings_equal (S : Schema) (o : DupOpts) (sibs : List DNode) (h : wfForest S sibs = true) :
+    dupSiblings S o sibs = sibs.map (dupNode S o) := by
+  obtain ⟨_, h2, _, _, h5⟩ := wfSibs_parts h
+  have := dupSibsLoop_canonical S o sibs [] none (by simp) h2 h5
+  simpa [dupSiblings] using this
+
+/-- … so a recursive `LYD_DUP_WITH_FLAGS` duplicate of a well-formed forest is the forest, -/
+theorem dup_siblings_full (S : Schema) (sibs : List DNode) (h : wfForest S sibs = true) :
+    dupSiblings S DupOpts.full sibs = sibs := by
+  rw [dup_siblings_equal S _ sibs h]
+  obtain ⟨_, _, _, h4, _⟩ := wfSibs_parts h
+  have : ∀ n ∈ sibs, dupNode S DupOpts.full n = n := fun n hn => dupNode_full S n ((flagsOkL_iff sibs).1 h4 n hn)
+  calc sibs.map (dupNode S DupOpts.full) = sibs.map id := List.map_congr_left this
+    _ = sibs := by simp
+
+/-- … and **merging into the empty target is `lyd_dup_siblings` of the source** followed by the `LYD_NEW` marking that
+`lyd_merge_sibling_r` applies unless `LYD_MERGE_WITH_FLAGS` is given. -/
+theorem merge_into_empty_eq_dup (S : Schema) (o : MergeOpts) (s : List DNode) (h : wfForest S s = true) :
+    merge S o [] s = (dupSiblings S DupOpts.full s).map (fun n => if o.withFlags then n else setNew n) := by
+  rw [merge_into_empty S o s h, dup_siblings_full S s h]
+  apply List.map_congr_left
+  intro n _
+  simp only [cp, cpFlags]
+  split
+  · simp [relabel_id]
+  · simp [setNew_eq_relabel]
+
+example : wfForest exS exSrc = true ∧ beqL (dupSiblings exS { recursive := true, noLyds := true } exSrc) exSrc = false ∧
+    beqL (dupSiblings exS DupOpts.full exSrc) exSrc = true := by decide
 
 end LyModel.Props.C14
